@@ -7,17 +7,21 @@
 (* the HA context of the occurrence ("-" when the source has none: MQTT, webhook).           *)
 EXTENDS Naturals, Sequences, FiniteSets
 
-RECURSIVE EvalF(_, _)
-EvalF(x, d) ==
-  CASE x.k = "none" -> TRUE
-    [] x.k = "eq"   -> x.f \in DOMAIN d /\ d[x.f] = x.c
-    [] x.k = "ne"   -> x.f \in DOMAIN d /\ d[x.f] # x.c
-    [] x.k = "nz"   -> x.f \in DOMAIN d /\ d[x.f] \in {"1", "2"}  \* int(field): truthy but not a bool; a field that is
-                                                              \* not a number makes the filter RAISE: no run for that message
-    [] x.k = "and"  -> EvalF(x.l, d) /\ EvalF(x.r, d)
-    [] x.k = "or"   -> EvalF(x.l, d) \/ EvalF(x.r, d)
-    [] x.k = "not"  -> ~EvalF(x.a, d)
-    [] OTHER        -> FALSE
+\* A filter is Python source evaluated on the message's OWN data only: "T" truthy, "F" falsy, "E" it raises (a name
+\* the message does not carry - NameError / KeyError -, int() of a non-number); and / or / not short-circuit as in
+\* Python, so an operand that is never reached cannot raise.  A raising filter starts no run for that message.
+RECURSIVE EvalR(_, _)
+EvalR(x, d) ==
+  CASE x.k = "none" -> "T"
+    [] x.k = "eq"   -> IF x.f \notin DOMAIN d THEN "E" ELSE IF d[x.f] = x.c THEN "T" ELSE "F"
+    [] x.k = "ne"   -> IF x.f \notin DOMAIN d THEN "E" ELSE IF d[x.f] # x.c THEN "T" ELSE "F"
+    [] x.k = "nz"   -> IF x.f \notin DOMAIN d THEN "E"                  \* int(field): truthy but not a bool
+                       ELSE IF d[x.f] \in {"1", "2"} THEN "T" ELSE IF d[x.f] = "0" THEN "F" ELSE "E"
+    [] x.k = "and"  -> LET l == EvalR(x.l, d) IN IF l # "T" THEN l ELSE EvalR(x.r, d)
+    [] x.k = "or"   -> LET l == EvalR(x.l, d) IN IF l # "F" THEN l ELSE EvalR(x.r, d)
+    [] x.k = "not"  -> LET a == EvalR(x.a, d) IN IF a = "E" THEN "E" ELSE IF a = "T" THEN "F" ELSE "T"
+    [] OTHER        -> "E"
+EvalF(x, d) == EvalR(x, d) = "T"
 
 Matches(T, M)  == T.kind = M.kind /\ T.key = M.key
 Accepts(T, M)  == Matches(T, M) /\ EvalF(T.flt, M.d)
